@@ -568,6 +568,79 @@ func c10EntryPoints(r *vReport, root string) {
 			r.Class("entry-point "+en.name, true)
 		}
 	}
+	c10LintDirNil(r, root, isOnce)
+}
+
+// c10LintDirNil: LintDir without a project on directories that hold SEVERAL repositories (nested
+// ones, siblings) or lie inside one: every YAML file below the directory gets the diagnostics it
+// gets alone - the repository of a file is the one that contains it, not the one the directory is in.
+func c10LintDirNil(r *vReport, root string, isOnce func(string) bool) {
+	for _, d := range []string{".", "repo", "repo/.github", "repo/sub", "repo2", "repo/wt/.github/workflows"} {
+		dir := filepath.Join(root, d)
+		var rels []string
+		filepath.Walk(dir, func(p string, info os.FileInfo, err error) error {
+			if err == nil && !info.IsDir() && (strings.HasSuffix(p, ".yml") || strings.HasSuffix(p, ".yaml")) {
+				rel, _ := filepath.Rel(root, p)
+				rels = append(rels, rel)
+			}
+			return nil
+		})
+		sort.Strings(rels)
+		if len(rels) == 0 {
+			continue
+		}
+		var out bytes.Buffer
+		l, err := NewLinter(&out, &LinterOptions{WorkingDir: root})
+		if err != nil {
+			r.HarnessError("%v", err)
+			return
+		}
+		errs, err := l.LintDir(dir, nil)
+		r.Evaluations++
+		r.Transitions++
+		r.Validated++
+		what := fmt.Sprintf("entry point LintDir(nil) on %s (%d YAML files below it)", d, len(rels))
+		replay := map[string]any{"scenario": "entry-points"}
+		if err != nil {
+			// a file that cannot be linted at all makes the run fatal; alone it does too
+			if _, aerr := c10AloneAny(root, rels); aerr == nil {
+				r.Violation("entry-point:fatal", fmt.Sprintf("%s: %v", what, err), replay)
+			}
+			continue
+		}
+		got := map[string][]string{}
+		for _, e := range errs {
+			if k := c10DiagKey(e); !isOnce(k) {
+				got[e.Filepath] = append(got[e.Filepath], k)
+			}
+		}
+		for _, rel := range rels {
+			ds, aerr := c10Alone(root, rel, "", "")
+			if aerr != nil {
+				continue
+			}
+			var alone []string
+			for _, k := range ds {
+				if !isOnce(k) {
+					alone = append(alone, k)
+				}
+			}
+			if strings.Join(got[rel], "\n") != strings.Join(alone, "\n") {
+				r.Violation("entry-point:isolation:"+c10DiffClass(got[rel], alone), fmt.Sprintf("%s: file %s: diagnostics differ from linting it alone\n in run: %s\n alone:  %s", what, rel, strings.Join(c10Diff(got[rel], alone), " || "), strings.Join(c10Diff(alone, got[rel]), " || ")), replay)
+			}
+		}
+		r.Class("entry-point LintDir(nil) "+d, true)
+	}
+}
+
+// c10AloneAny lints every file alone and returns the first fatal error, if any.
+func c10AloneAny(root string, rels []string) (string, error) {
+	for _, rel := range rels {
+		if _, err := c10Alone(root, rel, "", ""); err != nil {
+			return rel, err
+		}
+	}
+	return "", nil
 }
 
 func vContains(xs []string, x string) bool {
@@ -651,6 +724,14 @@ func TestVerifC10Race(t *testing.T) {
 			var out bytes.Buffer
 			l, _ := NewLinter(&out, &LinterOptions{WorkingDir: root})
 			if _, err := l.LintFiles(all, nil); err != nil {
+				t.Fatal(err)
+			}
+			runs++
+			// the same run with verbose and debug logging into a writer of the caller's (a plain
+			// buffer): the per-file goroutines all log
+			var out2, logs bytes.Buffer
+			l2, _ := NewLinter(&out2, &LinterOptions{WorkingDir: root, Verbose: true, Debug: true, LogWriter: &logs})
+			if _, err := l2.LintFiles(all, nil); err != nil {
 				t.Fatal(err)
 			}
 			runs++
